@@ -17,7 +17,7 @@ import (
 func main() {
 	mon.Main(&mon.Spec{
 		ID: "C20",
-		Rule: "each case = one well-typed expression tree (numeric, string and boolean literals, field references to float/int/string/bool/slice/pointer fields, unary ! and -, * / %, + -, < <= > >=, == !=, &&, ||, len/regexp/in) printed with minimal or redundant parentheses and arbitrary spacing, compiled afresh as the vd tag of a struct type built at run time, validated against seeded field values (0, negative, fractional, empty, nil, empty slice) and compared with an independent float64 evaluator; family exh enumerates every boolean tree of depth <= 2 over a small leaf set (quick: a seeded quarter of it); family hostile runs loosely typed expressions for the no-panic clause only; " +
+		Rule: "each case = one well-typed expression tree (numeric, string and boolean literals, field references to float/int/string/bool/slice/pointer fields, unary ! and -, * / %, + -, < <= > >=, == !=, &&, ||, len/regexp/in) printed with minimal or redundant parentheses and arbitrary spacing, compiled afresh as the vd tag of a struct type built at run time, validated against seeded field values (0, negative, fractional, empty, nil, empty slice) and compared with an independent float64 evaluator; family exh enumerates every boolean tree of depth <= 2 over a small leaf set (quick: a seeded quarter of it); family hostile runs loosely typed expressions for the no-panic clause only (including whole slices and maps under == != in(), indexes taken from field values, truthiness of what an interface{} field holds, a field behind a pointer to a pointer); string literals and regexp patterns include the characters the tag parser gives a meaning to (; ( ) and backslash-escaped parentheses); " +
 			"distinct = hash of (printed expression, field values); non-trivial = tree depth >= 2",
 		Assumptions: []string{
 			"expressions are well-typed by construction (arithmetic over numbers, ordering over numbers, equality over like kinds, logic over booleans)",
@@ -63,6 +63,12 @@ type vals struct {
 	T bool
 	L []int
 	P *int
+	// fields of the kinds that are not comparable in Go, an interface and a pointer to a
+	// pointer (hostile family: no-panic clause)
+	L2 []int
+	M  map[string]int
+	I  interface{}
+	PP **inner
 }
 
 var prioGroups = [][]string{{"||"}, {"&&"}, {"==", "!="}, {"<", "<=", ">", ">="}, {"+", "-"}, {"*", "/", "%"}}
@@ -94,6 +100,12 @@ var strLeaves = []*node{
 	{lit: "''", k: kStr, leaf: func(*vals) interface{} { return "" }},
 	{lit: "'abc'", k: kStr, leaf: func(*vals) interface{} { return "abc" }},
 	{lit: "(S)$", k: kStr, leaf: func(v *vals) interface{} { return v.S }},
+	// literals that contain the characters the tag parser itself gives a meaning to
+	{lit: "'a;b'", k: kStr, leaf: func(*vals) interface{} { return "a;b" }},
+	{lit: "';'", k: kStr, leaf: func(*vals) interface{} { return ";" }},
+	{lit: "'(a)'", k: kStr, leaf: func(*vals) interface{} { return "(a)" }},
+	{lit: "')'", k: kStr, leaf: func(*vals) interface{} { return ")" }},
+	{lit: "'('", k: kStr, leaf: func(*vals) interface{} { return "(" }},
 }
 var boolLeaves = []*node{
 	{lit: "true", k: kBool, leaf: func(*vals) interface{} { return true }},
@@ -145,11 +157,14 @@ func genK(r *mon.Rand, d int, k kind) *node {
 	case 5:
 		return &node{op: "!", l: genK(r, d-1, kBool), k: kBool}
 	case 6:
-		pat := r.Str("^a", "c$", "^$", "b")
+		pat := r.Str("^a", "c$", "^$", "b", `^\(a\)$`, "^(a|;)", `\)$`)
 		return &node{op: "call", fn: "regexp", lit: pat, args: []*node{genK(r, d-1, kStr)}, k: kBool}
 	default:
 		if r.Bool() {
 			return &node{op: "call", fn: "in", args: []*node{genK(r, d-1, kNum), numLit(1), numLit(2), numLit(3)}, k: kBool}
+		}
+		if r.Chance(3) {
+			return &node{op: "call", fn: "in", args: []*node{genK(r, d-1, kStr), strLeaves[4+r.Intn(5)], strLeaves[4+r.Intn(5)]}, k: kBool}
 		}
 		return &node{op: "call", fn: "in", args: []*node{genK(r, d-1, kStr), strLeaves[0], strLeaves[2]}, k: kBool}
 	}
@@ -299,14 +314,26 @@ func (n *node) eval(v *vals, st *evalState) interface{} {
 	panic("unknown op " + n.op)
 }
 
+type inner struct{ Y int }
+
+// tagQuote writes the expression the way it stands between the double quotes of a struct
+// tag (a Go string literal: backslashes doubled)
+func tagQuote(expr string) string {
+	return strings.NewReplacer(`\`, `\\`, `"`, `\"`).Replace(expr)
+}
+
 func buildType(expr string) reflect.Type {
 	return reflect.StructOf([]reflect.StructField{
-		{Name: "X", Type: reflect.TypeOf(float64(0)), Tag: reflect.StructTag(`vd:"` + expr + `"`)},
+		{Name: "X", Type: reflect.TypeOf(float64(0)), Tag: reflect.StructTag(`vd:"` + tagQuote(expr) + `"`)},
 		{Name: "A", Type: reflect.TypeOf(int(0))},
 		{Name: "S", Type: reflect.TypeOf("")},
 		{Name: "T", Type: reflect.TypeOf(false)},
 		{Name: "L", Type: reflect.TypeOf([]int{})},
 		{Name: "P", Type: reflect.TypeOf((*int)(nil))},
+		{Name: "L2", Type: reflect.TypeOf([]int{})},
+		{Name: "M", Type: reflect.TypeOf(map[string]int{})},
+		{Name: "I", Type: reflect.TypeOf((*interface{})(nil)).Elem()},
+		{Name: "PP", Type: reflect.TypeOf((**inner)(nil))},
 	})
 }
 
@@ -321,10 +348,22 @@ func setVals(v reflect.Value, x *vals) {
 	if x.P != nil {
 		v.Elem().Field(5).Set(reflect.ValueOf(x.P))
 	}
+	if x.L2 != nil {
+		v.Elem().Field(6).Set(reflect.ValueOf(x.L2))
+	}
+	if x.M != nil {
+		v.Elem().Field(7).Set(reflect.ValueOf(x.M))
+	}
+	if x.I != nil {
+		v.Elem().Field(8).Set(reflect.ValueOf(x.I))
+	}
+	if x.PP != nil {
+		v.Elem().Field(9).Set(reflect.ValueOf(x.PP))
+	}
 }
 
 func genVals(r *mon.Rand) *vals {
-	x := &vals{X: []float64{0, 1, -1, 0.25, 2.5, 3, -0.5}[r.Intn(7)], A: r.Intn(5) - 2, S: r.Str("", "a", "abc", "bc"), T: r.Bool()}
+	x := &vals{X: []float64{0, 1, -1, 0.25, 2.5, 3, -0.5}[r.Intn(7)], A: r.Intn(5) - 2, S: r.Str("", "a", "abc", "bc", "a;b", ";", "(a)", ")", "("), T: r.Bool()}
 	if r.Bool() {
 		x.L = []int{1, 2, 3}[:r.Intn(4)]
 	}
@@ -460,6 +499,36 @@ func work(w *mon.W) {
 		expr := hostileBool(c.R, 3)
 		x := genVals(c.R)
 		x.X = []float64{0, 1, -1, 0.25, 2.5, 1e308, -1e308, 1e-300}[c.R.Intn(8)]
+		r := c.R
+		if r.Bool() {
+			x.L2 = []int{1, 2, 3}[:r.Intn(4)]
+		}
+		if r.Bool() {
+			x.M = map[string]int{}
+			if r.Bool() {
+				x.M["a"] = 1
+			}
+		}
+		switch r.Intn(6) {
+		case 0:
+			x.I = (*int)(nil)
+		case 1:
+			x.I = 3
+		case 2:
+			x.I = "x"
+		case 3:
+			x.I = []interface{}{(*int)(nil), 1}
+		case 4:
+			x.I = []string{}
+		}
+		switch r.Intn(3) {
+		case 0:
+			var in *inner
+			x.PP = &in
+		case 1:
+			in := &inner{Y: r.Intn(3) - 1}
+			x.PP = &in
+		}
 		_, pv, stack := validate(expr, x)
 		w.Count("validations", 1)
 		w.Count("hostile_validations", 1)
@@ -492,7 +561,13 @@ func hostileStr(r *mon.Rand, d int) string {
 
 func hostileBool(r *mon.Rand, d int) string {
 	if d == 0 || r.Chance(4) {
-		return r.Str("true", "false", "!true", "(T)$", "nil==(P)$", "(P)$!=nil", "regexp('^a',(S)$)", "in($,1,2,3)", "in((S)$,'a','b')", "range((L)$, #v>0)", "email((S)$)", "phone((S)$)", "!(T)$", "$", "len((L)$)>0", "regexp('(',(S)$)", "in()", "len()")
+		return r.Str("true", "false", "!true", "(T)$", "nil==(P)$", "(P)$!=nil", "regexp('^a',(S)$)", "in($,1,2,3)", "in((S)$,'a','b')", "range((L)$, #v>0)", "email((S)$)", "phone((S)$)", "!(T)$", "$", "len((L)$)>0", "regexp('(',(S)$)", "in()", "len()",
+			// collections compared as wholes, indexes taken from field values, truthiness of
+			// whatever an interface holds, a field behind a pointer to a pointer
+			"(L)$==(L2)$", "(L)$!=(L2)$", "(L)$==(L)$", "in((L)$,(L2)$)", "(M)$==(M)$", "(M)$!=(M)$", "in((M)$,(M)$,1)",
+			"(L)$[(A)$]==1", "(S)$[(A)$]=='a'", "(L)$[len((L)$)-1]>0", "(L)$[-1]==nil",
+			"(I)$", "!(I)$", "(I)$==(I)$", "(L)$", "!(M)$", "(I)$==(L)$",
+			"(PP.Y)$==nil", "(PP.Y)$>=0", "!(PP.Y)$")
 	}
 	switch r.Intn(4) {
 	case 0:
